@@ -47,7 +47,8 @@ def variants(jinja2):
     V = X.Variant
     return [V(jinja2), V(jinja2, autoescape=True), V(jinja2, optimized=False), V(jinja2, is_async=True),
             V(jinja2, sandboxed=True), V(jinja2, autoescape=True, optimized=False), V(jinja2, volatile=True),
-            V(jinja2, autoescape=True, volatile=False)]
+            V(jinja2, autoescape=True, volatile=False), V(jinja2, autoescape=True, env_autoescape=False),
+            V(jinja2, autoescape=False, env_autoescape=True, optimized=False)]
 
 
 def run(ctx, res):
